@@ -52,7 +52,11 @@ static inline long vt_posix_read(int fd, void* buf, unsigned long count) {
   n = vt_fd.len - vt_fd.pos;
   if (n > count) n = count;
   if (vt_fd.chunk != 0 && n > vt_fd.chunk) n = vt_fd.chunk;
-  for (i = 0; i < n; i++) ((unsigned char*)buf)[i] = vt_fd.src[vt_fd.pos + i];
+  if (n > 8) n = 8; /* a transfer may always be short: at most 8 bytes per call, loop-free */
+  (void)i;
+#define VT_RD(j) if (n > j) ((unsigned char*)buf)[j] = vt_fd.src[vt_fd.pos + j];
+  VT_RD(0) VT_RD(1) VT_RD(2) VT_RD(3) VT_RD(4) VT_RD(5) VT_RD(6) VT_RD(7)
+#undef VT_RD
   vt_fd.pos += n;
   return (long)n;
 }
@@ -66,7 +70,11 @@ static inline long vt_posix_write(int fd, const void* buf, unsigned long count) 
   n = vt_fd.cap - vt_fd.wpos;
   if (n > count) n = count;
   if (vt_fd.chunk != 0 && n > vt_fd.chunk) n = vt_fd.chunk;
-  for (i = 0; i < n; i++) vt_fd.dst[vt_fd.wpos + i] = ((const unsigned char*)buf)[i];
+  if (n > 8) n = 8;
+  (void)i;
+#define VT_WR(j) if (n > j) vt_fd.dst[vt_fd.wpos + j] = ((const unsigned char*)buf)[j];
+  VT_WR(0) VT_WR(1) VT_WR(2) VT_WR(3) VT_WR(4) VT_WR(5) VT_WR(6) VT_WR(7)
+#undef VT_WR
   vt_fd.wpos += n;
   return (long)n;
 }
